@@ -509,6 +509,212 @@ class Real14(Sched14):
         return {"per": per, "anomalies": self.anomalies}
 
 
+class Burst14(Sched14):
+    """The server's PUBLIC stop path.  The case's server runs `start_tcp` in a thread of its own (so the loop
+    thread is that thread, the pool the server's own ThreadPoolExecutor); a client sends, in ONE write,
+    `initialize`, a burst of messages whose handlers are @thread kind - more of them than any default pool
+    has workers, and the handlers wait at a gate, so that most invocations are still queued in the pool -,
+    then `shutdown` and `exit`.  The gate opens when the built-in `exit` starts; the observation is taken
+    after `start_tcp` has returned, i.e. after JsonRPCServer.shutdown() ran (Model.Dispatch.stop)."""
+
+    def __init__(self, case):         # noqa  (deliberately not calling Sched.__init__)
+        from pygls.lsp.server import LanguageServer
+        self.case = case
+        self.log14, self.anomalies = [], []
+        self.lock = threading.Lock()
+        self.gate = threading.Event()
+        self.main = None                                    # the server's thread, set in run()
+        self.tls = threading.local()
+        self.cur = None
+        self.server = LanguageServer("c14-burst", "v1", **server_kwargs(case))
+        self.protocol = self.server.protocol
+        self._register({})
+        fm = self.protocol.fm
+        for name in list(fm.builtin_features):
+            fm.add_builtin_feature(name, self._wrap_builtin(name, fm.builtin_features[name]))
+        msgs = [e[1] for e in case["evs"] if e[0] == "recv"]
+        self.kmap = {core.canon([meth_of(m), canon_arg_of_msg(m)]): k for k, m in enumerate(msgs)}
+
+    def _enter(self, name, part, fid, inj, args, srv=None):
+        onloop = threading.current_thread() is self.main
+        a0 = canon_arg(args[0]) if args else ["none"]
+        if part == "command":
+            k = self.kmap.get(core.canon(["cmd", a0]), -1)
+        else:
+            k = self.kmap.get(core.canon([name, a0]), -1)
+        seen = None
+        if a0 and a0[0] in ("open", "change") and part == "user":
+            # the user's handler looks, through the server it holds, at the one document its message is about
+            try:
+                d = (srv or self.server).workspace.text_documents.get(doc_uri(a0[1]))
+                seen = None if d is None else [d.version, num(d.source, "T")]
+            except Exception as ex:         # noqa
+                seen = ["raise", type(ex).__name__]
+        with self.lock:
+            self.log14.append([k, name, part, fid, "loop" if onloop else "pool", bool(inj), seen])
+        if name == "exit":
+            self.gate.set()
+        elif not onloop and part != "builtin":
+            self.gate.wait(20)
+
+    def run(self):
+        import socket
+        import time
+        msgs = [e[1] for e in self.case["evs"] if e[0] == "recv"]
+        with socket.socket() as s0:
+            s0.bind(("127.0.0.1", 0))
+            port = s0.getsockname()[1]
+
+        def serve():
+            self.main = threading.current_thread()
+            try:
+                self.server.start_tcp("127.0.0.1", port)
+            except BaseException:       # noqa  (SystemExit of `exit`)
+                pass
+        th = threading.Thread(target=serve, daemon=True)
+        th.start()
+        sock, t_end = None, time.time() + 10
+        while sock is None and time.time() < t_end:
+            try:
+                sock = socket.create_connection(("127.0.0.1", port), timeout=5)
+            except OSError:
+                time.sleep(0.01)
+        if sock is None:
+            self.gate.set()
+            return {"log": [], "anomalies": ["could not connect"]}
+        data = b""
+        for m in msgs + [{"c": "exit"}]:
+            body = wire(m) if m["c"] != "exit" else json.dumps({"jsonrpc": "2.0", "method": "exit"}).encode()
+            data += b"Content-Length: %d\r\n\r\n" % len(body) + body
+
+        def drain():
+            try:
+                while sock.recv(65536):
+                    pass
+            except OSError:
+                pass
+        threading.Thread(target=drain, daemon=True).start()
+        sock.sendall(data)
+        th.join(30)
+        self.gate.set()
+        if th.is_alive():
+            self.anomalies.append("the server did not stop")
+        time.sleep(0.05)
+        try:
+            sock.close()
+        except OSError:
+            pass
+        with self.lock:
+            return {"log": [list(x) for x in self.log14], "anomalies": self.anomalies}
+
+
+def canon_arg_of_msg(m):
+    """canon_arg of the params object message m is structured into (for attributing a handler call to its
+    message when there is no per-message drain)"""
+    c = m["c"]
+    if c == "init":
+        return ["init", list(m["folders"])]
+    if c == "inited":
+        return ["inited"]
+    if c == "open":
+        return ["open", m["u"], m["v"], m["t"]]
+    if c == "change":
+        return ["change", m["u"], m["v"], list(m["ts"])]
+    if c == "close":
+        return ["close", m["u"]]
+    if c == "trace":
+        return ["trace", m["v"]]
+    if c == "shutdown":
+        return ["none"]
+    if c == "other":
+        return ["other", m["v"]]
+    return ["?"]
+
+
+def burst_cases(rng, n):
+    """initialize, then 38 messages (more than the largest default pool, 32) for methods whose user handler is
+    @thread kind - under textDocument/didOpen (chained after the built-in) and under a user notification -,
+    mixed with didChange messages whose handler is sync or a coroutine, then shutdown (and exit).  Every
+    message is distinct, so that a handler call can be attributed to its message by what it received."""
+    out = []
+    for i in range(n):
+        thr = [T_ABOVE, T_BELOW][i % 2]
+        regs = [[0, BUILTIN["open"], 0, [1, 0, 2][i % 3], thr, 1, 0],
+                [0, "u/a", 0, [0, 1][i % 2], [T_BELOW, T_ABOVE][i % 2], 2, 0],
+                [0, BUILTIN["change"], 1 if i % 2 else 0, 1, T_NONE, 3, (i // 2) % 2]]
+        ids = [0]
+        msgs = [mk_msg("init", ids)]
+        for j in range(38):
+            x = rng.random()
+            if x < 0.7:
+                msgs.append(mk_msg("open", ids, u=j + 1, v=j + 1, t=j + 1))
+            else:
+                msgs.append(mk_msg("other", ids, name="u/a", id=None, v=100 + j))
+            if x < 0.2:
+                msgs.append(mk_msg("change", ids, u=j + 1, v=j + 50, ts=[j + 60]))
+        msgs.append(mk_msg("shutdown", ids))
+        out.append({"t": "burst", "regs": regs, "tokens": [], "evs": [["recv", m] for m in msgs]})
+    return out
+
+
+def judge_burst(case, got, S, actual):
+    """After the server's stop path: every message reached its built-in once; every @thread / sync handler the
+    plan lists for it ran exactly once, on the promised thread, the user's didOpen / didChange handler finding
+    the document as its own message left it or later (built-in first); nothing ran twice or unplanned.
+    A coroutine handler whose task had not started when `exit` was handled is NOT judged for presence: the
+    property does not say what a session that ends owes to it (recorded, no alarm)."""
+    if got["anomalies"]:
+        return "anomaly: " + got["anomalies"][0], 0
+    msgs = [e[1] for e in case["evs"] if e[0] == "recv"]
+    per = {}
+    for h in got["log"]:
+        if h[1] == "exit":
+            continue
+        if h[0] < 0 or h[0] >= len(msgs):
+            return "a handler ran that cannot be attributed to a message: %r" % (h[:3],), 0
+        per.setdefault(h[0], []).append(h)
+    unstarted_async = 0
+    later_version = {}
+    for k, m in enumerate(msgs):
+        if m["c"] in ("open", "change"):
+            later_version.setdefault(m["u"], []).append((k, [m["v"], m["t"] if m["c"] == "open" else m["ts"][-1]]))
+    for k, (m, act) in enumerate(zip(msgs, actual)):
+        entries = per.get(k, [])
+        parts = [h[2] for h in entries]
+        if len(set(parts)) != len(parts):
+            return "message %d: a handler ran twice" % k, 0
+        exp = {y["part"]: y for y in act}
+        for h in entries:
+            y = exp.get(h[2])
+            if y is None:
+                return "message %d: a handler ran that is not planned" % k, 0
+            if [h[3], h[4], h[5]] != [y["fid"], y["site"], y["inj"]]:
+                return "message %d: wrong function / thread / injection" % k, 0
+            if h[2] == "user" and h[6] is not None:
+                ok = [v for kk, v in later_version.get(m["u"], []) if kk >= k]
+                if h[6] not in ok:
+                    return "message %d: the user's handler did not find the document its built-in installed" % k, 0
+            if h[2] == "user" and m["c"] in ("open", "change") and h[6] is None:
+                return "message %d: the user's handler ran before the built-in (document missing)" % k, 0
+        for p, y in exp.items():
+            if p in parts or y["fut"]:
+                continue
+            if y["site"] == "loop" and not y["now"]:
+                unstarted_async += 1            # a loop task not yet started at exit: not judged
+                continue
+            return "message %d (%s): its %s handler never ran although the server has stopped" % (k, m["c"], p), 0
+    return None, unstarted_async
+
+
+def _burst_one(case):
+    try:
+        return Burst14(case).run()
+    except priv.Unresolvable:
+        raise
+    except BaseException as ex:     # noqa
+        return {"log": [], "anomalies": ["raise " + type(ex).__name__ + " " + str(ex)[:200]]}
+
+
 def judge_real(case, got, S, actual):
     """Real runtime, judged per message: exactly the planned invocations, built-in first, the promised
     thread / injection / arguments, built-in on the old workspace, everyone else on the new one."""
@@ -548,6 +754,8 @@ def _real_one(case):
 
 @priv.in_worker
 def _run_one(case):
+    if case.get("t") == "burst":
+        return _burst_one(case)
     try:
         return run_case(case)
     except priv.Unresolvable:
@@ -1293,20 +1501,18 @@ def anchored_coverage(cases):
 class C14(core.Property):
     id = "C14"
     modules = ["Proofs.FeaturesProofs", "Proofs.C14Proofs", "Props.C14", "Proofs.LinkDispatchEndpoint"]
-    obligations = ["shape_general", "site_iff_thread", "inject_iff_asked", "site_iff_thread_product",
-                   "inject_iff_asked_product", "recv_delivery", "plan_actual", "plan_facts", "step_log", "ws_run",
-                   "step_tot", "balance", "M_run", "O_run", "K_run", "at_most_once", "exactly_once_at_quiescence",
-                   "builtin_then_user_once", "entries_are_owed", "entries_from_registry", "snapshots",
-                   "user_failure_keeps_builtin", "builtin_reply_kept", "no_handler_nothing", "recv_gated",
-                   "literal_inside_guard", "delivery_exact", "shapes_in_context", "see_faithful", "inject_decision",
-                   "inject_iff_asked_g", "inject_only_if_asked_g", "inject_refuted_unresolvable_hints",
-                   "shapes_in_context_g", "thread_keeps", "isb_known", "shared_name_pairs", "custom_builtin_once", "notebook_builtin_first",
-                   "C14_refuted_unresolvable_hints", "C14_shapes", "C14_partial", "C14_refuted_builtin_raises", "C14_refuted",
-                   "C14_nonvacuous", "C14_reference_agrees",
-                   # the link with Model/Endpoint.v (C01/C08/C09's model): Proofs/LinkDispatchEndpoint.v
-                   "link_run", "link_starts", "link_quiescent", "endpoint_satisfies_C14",
-                   "endpoint_command_after_builtin", "dispatch_inherits_never_starts", "cfg_of_agrees",
-                   "link_function", "link_nonvacuous"]
+    # the top-level theorems (their Print Assumptions cover the lemmas they rest on: recv_delivery, plan_actual,
+    # step_log, step_tot, M_run, K_run, stop_jobs, runx_is_run, cfg_of_agrees, ...)
+    obligations = ["shape_general", "site_iff_thread", "inject_iff_asked", "balance",
+                   "O_run", "at_most_once", "exactly_once_at_quiescence", "builtin_then_user_once",
+                   "entries_are_owed", "snapshots", "user_failure_keeps_builtin", "builtin_reply_kept",
+                   "no_handler_nothing", "delivery_exact", "inject_decision", "inject_iff_asked_g",
+                   "shapes_in_context_g", "thread_keeps", "shared_name_pairs", "custom_builtin_once",
+                   "notebook_builtin_first", "stop_jobs_idle", "stop_preserves_log", "once_after_stop",
+                   "stop_history_invariants", "stop_runs_the_queue", "C14_refuted_unresolvable_hints", "C14_shapes",
+                   "C14_partial", "C14_refuted_builtin_raises", "C14_refuted", "C14_nonvacuous",
+                   "C14_reference_agrees", "link_run", "link_starts", "endpoint_satisfies_C14",
+                   "endpoint_command_after_builtin", "dispatch_inherits_never_starts", "link_function", "link_nonvacuous"]
     coq_targets = ["Props/C14.vo", "Extract/ExtractC14.vo", "Proofs/LinkDispatchEndpoint.vo"]
     rule = ("non-trivial = the registration shape has a thread decorator or a server parameter, or the message's "
             "method has both a built-in and a user handler")
@@ -1339,6 +1545,8 @@ class C14(core.Property):
         cases.extend(proto_cases())
         cases.extend(notebook_cases())
         cases.extend(reinit_cases())
+        # the public stop path: bursts of @thread messages, then shutdown and exit, observed after start_tcp returned
+        cases.extend(burst_cases(chk.rng, chk.n(3, 24)))
         cases.extend(matrix_cases())
         n = chk.n(260, 6000)
         cases.extend(interleave(chk.rng, [scenario(chk.rng) for _ in range(n)]))
@@ -1369,6 +1577,9 @@ class C14(core.Property):
 
     def model_output(self, case, toks):
         M, S, guard, actual = parse_run(toks, case)
+        if case.get("t") == "burst":
+            # observed once, after the stop path: judged by the reference's plan per message (no event-by-event M)
+            return {"M": {"burst": True}, "S": {"burst": actual}, "guard": True, "klass": None}
         if not guard:
             self._unguarded.add(core.canon(case))
         return {"M": M, "S": S, "guard": guard,
@@ -1378,6 +1589,8 @@ class C14(core.Property):
     _outside = []
 
     def same(self, case, impl, M):
+        if case.get("t") == "burst":
+            return True
         eq = core.canon(impl) == core.canon(M)
         if not eq and core.canon(case) in self._unguarded and len(self._outside) < 5:
             # outside the guard core.evaluate compares impl = M only when S fails; the model is meant
@@ -1387,7 +1600,15 @@ class C14(core.Property):
         return eq
 
     def satisfies(self, case, impl, S):
+        if case.get("t") == "burst":
+            if not isinstance(impl, dict) or "log" not in impl:
+                return False
+            why, na = judge_burst(case, impl, None, S["burst"])
+            self._unstarted_async += na
+            return why is None
         return judge(case, impl, S) is None
+
+    _unstarted_async = 0
 
     def nontrivial(self, case):
         regs = case["regs"]
@@ -1507,7 +1728,7 @@ class C14(core.Property):
         viol += self._sig_table_check()
         # the real runtime: ordinary loop, C tasks, the server's own ThreadPoolExecutor
         rcases = []
-        for _ in range(chk.n(60, 600)):
+        for _ in range(chk.n(40, 600)):
             c, msgs = scenario(chk.rng)
             rcases.append(dict(c, t="real", evs=msgs))
         rcases += [dict(c, t="real", evs=[e for e in c["evs"] if e[0] == "recv"]) for c in matrix_cases()[::3]]
@@ -1538,6 +1759,7 @@ class C14(core.Property):
             impl.close()
         self.extra_coverage = dict(getattr(self, "extra_coverage", None) or {})
         self.extra_coverage["shape_product_via_c19"] = n
+        self.extra_coverage["coroutine_handlers_unstarted_at_exit_not_judged"] = self._unstarted_async
         self.extra_coverage["real_runtime_sequences"] = nreal
         if not chk.quick:
             # the compiled proofs once more through the independent checker
